@@ -33,6 +33,20 @@ class Res(wiring.Component):
         super().__init__({})
 
 
+class EqRes(wiring.Component):
+    """A resource class with value equality (instances of one peripheral type that compare equal): the memory map
+    identifies resources by identity."""
+    def __init__(self, kind):
+        super().__init__({})
+        self.kind = kind
+
+    def __eq__(self, other):
+        return isinstance(other, EqRes) and other.kind == self.kind
+
+    def __hash__(self):
+        return hash(self.kind)
+
+
 def n_cases(tier):
     return 4000 if tier == "quick" else 60000
 
@@ -102,13 +116,23 @@ def run_case(case):
     st = {"prefix_refusal": False, "sibling_accept": False, "keep": []}
 
     def snapshot(t):
-        return (live_resources(lives[t]), live_windows(lives[t]), live_all(lives[t]))
+        # align_to(0) reports the placement cursor without moving it (the maps here have alignment 0)
+        return (live_resources(lives[t]), live_windows(lives[t]), live_all(lives[t]), lives[t].align_to(0))
 
     def check_paths(t, why):
         paths = [p for (_r, p, _s, _e, _w) in live_all(lives[t])]
         mon.ok("paths_distinct", len(set(paths)) == len(paths), f"{why}: duplicate paths in all_resources(): {paths}")
         mon.eq("paths_match_model", sorted(paths, key=repr), sorted(model_paths(models[t]), key=repr),
                f"{why}: paths of {models[t].label}")
+        if rng.random() < 0.2:
+            by_id = {}
+            for (rid, p, _s, _e, _w) in live_all(lives[t]):
+                by_id.setdefault(rid, []).append(p)       # a map shared by two parents is reachable along two paths
+            for r in st["keep"]:
+                if id(r) in by_id:
+                    got = tuple(tuple(x) for x in lives[t].find_resource(r).path)
+                    mon.ok("find_resource_path", got in by_id[id(r)],
+                           f"{why}: find_resource() reports path {got}, all_resources() reports {by_id[id(r)]} for that object")
 
     def judge(t, pred, raised, name, why, before):
         mm = models[t]
@@ -178,7 +202,7 @@ def run_case(case):
                 else:
                     mon.eq("atomic", snapshot(c), before_c, f"{why}: refused but changed the window map")
             else:
-                r = Res()
+                r = Res() if rng.random() < 0.7 else EqRes(rng.choice(["uart", "timer"]))
                 st["keep"].append(r)
                 name = gen_name(rng)
                 if rng.random() < 0.03:
@@ -188,14 +212,15 @@ def run_case(case):
                 addr = None
                 if rng.random() < 0.06 and mm.items:
                     addr = mm.items[0]["start"]     # refused for an address reason: its (legal) name must stay available
-                pred = mm.predict_add_resource(id(r), True, name, 1, addr, None)
+                al = None if rng.random() < 0.8 else rng.choice([1, 2])
+                pred = mm.predict_add_resource(id(r), True, name, 1, addr, al)
                 vn = valid_name(name)
                 if vn and pred.kind == REFUSE and pred.reason == "name-conflict" and vn not in mm.names:
                     st["prefix_refusal"] = True
                 if vn and pred.kind == ACCEPT and any(n[0] == vn[0] and type(n[0]) is type(vn[0]) for n in mm.names):
                     st["sibling_accept"] = True
                 try:
-                    out, raised = m.add_resource(r, name=name, size=1, addr=addr), None
+                    out, raised = m.add_resource(r, name=name, size=1, addr=addr, alignment=al), None
                 except Exception as e:
                     out, raised = None, e
                 if addr is not None and raised is not None:
